@@ -41,6 +41,17 @@ def timeOK (expiresNs : Nat) (pf : Option (Nat × Option Nat × Bytes × Bytes))
   | some (_, some e, _, _) => decide (now ≤ expNs e) && decide (expNs e - now ≤ 2 * (expiresNs : Int))
   | _ => false
 
+/-- statement-level oracle for `Hashcash.Verify(expected)` at instant `now`: the stamp is accepted exactly when it uses SHA-256,
+has not expired, NAMES THE EXPECTED SUBJECT, and its hash (real SHA-256 digest) starts with at least `difficulty` zero bits -/
+def specVerify (d : Nat) (exp : Option Nat) (stampSubject alg expected digest : Bytes) (now : Int) : Bool :=
+  alg == algSHA256
+    && (match exp with | none => true | some e => decide (now ≤ expNs e))
+    && stampSubject == expected && decide (d ≤ leadingZeroBits digest)
+
+def verifyTok : Except VErr Unit → String
+  | .ok _ => "ok"
+  | .error e => e.tok
+
 def parsePF (s : String) : Option (Option (Nat × Option Nat × Bytes × Bytes)) :=
   if s = "perr" then some none else
   match s.splitOn "," with
@@ -74,6 +85,26 @@ def step (_ : Unit) (toks : List String) (rhs : String) : Unit × Verdict :=
       if rhs ≠ want then ((), .spec s!"Hashcash.Verify: leadingZeroBits={leadingZeroBits dg} difficulty={d} want={want}")
       else ((), .ok)
     | _, _ => ((), .bad "hcv args")
+  | ["hcvs", diff, exp, ssub, nonce, alg, sol, esub, hashed, digest, nowLo, nowHi] =>
+    -- the real `Hashcash.Verify(esub)` on a stamp whose own subject is `ssub`
+    match diff.toNat?, parseExpTok exp, hexToBytes ssub, hexToBytes nonce, hexToBytes alg, hexToBytes sol, hexToBytes esub with
+    | some diff, some exp, some ssub, some nonce, some alg, some sol, some esub =>
+      match hexToBytes hashed, hexToBytes digest, nowLo.toInt?, nowHi.toInt? with
+      | some hashed, some digest, some nowLo, some nowHi =>
+        let h : Hashcash := { difficulty := diff, expiresAt := exp, subject := ssub, nonce := nonce, alg := alg, solution := sol }
+        if toStr h ≠ hashed then ((), .diff ("string," ++ bytesToHex (toStr h))) else
+        let sha : Bytes → Bytes := fun s => if s = hashed then digest else []
+        let sLo := specVerify diff exp ssub alg esub digest nowLo
+        let sHi := specVerify diff exp ssub alg esub digest nowHi
+        let mLo := verifyTok (hcVerify sha h esub nowLo)
+        let mHi := verifyTok (hcVerify sha h esub nowHi)
+        let implOK := rhs == "ok"
+        if sLo = sHi ∧ implOK ≠ sLo then
+          ((), .spec s!"Hashcash.Verify: statement says accept={sLo} (stamp names the expected subject: {ssub == esub}, leadingZeroBits={leadingZeroBits digest}, difficulty={diff}), implementation {rhs}")
+        else if mLo = mHi ∧ mLo ≠ rhs then ((), .diff mLo)
+        else ((), .ok)
+      | _, _, _, _ => ((), .bad "hcvs args")
+    | _, _, _, _, _, _, _ => ((), .bad "hcvs args")
   | ["parse", sol] =>
     match hexToBytes sol with
     | some sol =>
